@@ -14,7 +14,15 @@ pub fn rule_c09() -> String {
 }
 
 fn compare(data: &[u8], w: usize, s: u8, rep: &mut Report, what: &str, prop: &str) -> bool {
-    let coords = || J::obj().set("property", prop).set("kind", "image").set("w", w).set("strength", s as u64).set("data", if data.len() <= 4096 { hex(data) } else { format!("{} bytes (too long to inline); {}", data.len(), what) }).set("what", what);
+    compare_at(data, w, s, rep, what, prop, None)
+}
+
+/// `over`: replay coordinates to use instead of the single image (call sequences replay as a whole).
+fn compare_at(data: &[u8], w: usize, s: u8, rep: &mut Report, what: &str, prop: &str, over: Option<&J>) -> bool {
+    let coords = || match over {
+        Some(j) => j.clone().set("what", what),
+        None => J::obj().set("property", prop).set("kind", "image").set("w", w).set("strength", s as u64).set("data", if data.len() <= 4096 { hex(data) } else { format!("{} bytes (too long to inline); {}", data.len(), what) }).set("what", what),
+    };
     let keep = data.to_vec();
     let out = match catch(|| deblock(data, w, s)) {
         Ok(o) => o,
@@ -207,10 +215,29 @@ pub fn run_c09(ctx: &Ctx) -> (Report, String) {
         let mut rng = Rng::new(ctx.seed ^ 0xC09, w as u64);
         for h in 1..=maxd {
             for s in &strengths {
-                for content in 0..8 {
+                for content in 0..9 {
                     let mut d = vec![0u8; w * h];
                     match content {
                         0 => rng.fill(&mut d),
+                        8 => {
+                            // thin lines on a flat background
+                            let bg = *rng.pick(&[0u8, 16, 128, 200, 255]);
+                            d.iter_mut().for_each(|p| *p = bg);
+                            for _ in 0..1 + rng.below(3) {
+                                let (y0, th, v) = (rng.below(h as u64) as usize, 1 + rng.below(2) as usize, rng.byte());
+                                for y in y0..(y0 + th).min(h) {
+                                    d[y * w..(y + 1) * w].iter_mut().for_each(|p| *p = v);
+                                }
+                            }
+                            for _ in 0..rng.below(3) {
+                                let (x0, th, v) = (rng.below(w as u64) as usize, 1 + rng.below(2) as usize, rng.byte());
+                                for x in x0..(x0 + th).min(w) {
+                                    for y in 0..h {
+                                        d[y * w + x] = v;
+                                    }
+                                }
+                            }
+                        }
                         5 | 6 => {
                             // runs of identical rows (5) or columns (6), 1-8 thick, cycling through two or three
                             // line patterns at a random phase (groups of lines that are equal in pairs but not all equal)
@@ -305,18 +332,87 @@ pub fn run_c09(ctx: &Ctx) -> (Report, String) {
     if !ctx.miri() {
         total.merge(boundary_images(ctx, "C09"));
     }
+    total.merge(call_sequences(ctx, "C09"));
+    if ctx.is_main() && ctx.scale_pct == 100 {
+        total.require("call_sequences", 2000);
+        total.require("calls_on_unaligned_subslices", 2000);
+    }
+    {
+    }
     if ctx.is_main() && ctx.scale_pct == 100 {
         total.require("boundary_images", 100);
         total.require("kernel_patterns_horizontal", 3_000_000);
         total.require("kernel_patterns_vertical", 3_000_000);
         total.require("gradient=negative", 100_000);
         total.require("gradient=positive", 100_000);
-        total.require("geometry_images", (maxd * maxd * strengths.len() * 8) as u64);
+        total.require("geometry_images", (maxd * maxd * strengths.len() * 9) as u64);
     }
     if total.exhaustive.is_none() {
         total.exhaustive = Some(false);
     }
     (total, rule_c09())
+}
+
+/// Call sequences on one thread: the result of a call must not depend on the calls before it.
+/// Consecutive calls share the sample count (different factorizations of one area, transposes),
+/// often the very same bytes and strength, with unrelated sizes in between now and then; the
+/// input is a sub-slice at byte offset 0..3 of a larger buffer.
+pub fn sequence_case(ctx: &Ctx, prop: &'static str, k: usize, rep: &mut Report) {
+    let mut rng = Rng::new(ctx.seed ^ 0x5e9c09, k as u64);
+    let over = J::obj().set("property", prop).set("kind", "sequence").set("tier", ctx.tier_name()).set("seed", ctx.seed).set("stage", ctx.stage.clone()).set("k", k);
+    let (w0, h0) = (1 + rng.below(if ctx.miri() { 12 } else { 40 }) as usize, 1 + rng.below(if ctx.miri() { 12 } else { 40 }) as usize);
+    let area = w0 * h0;
+    let widths: Vec<usize> = (1..=area).filter(|d| area % d == 0).collect();
+    let n = if ctx.miri() { 3 } else { 3 + rng.below(6) as usize };
+    let mut bytes = vec![0u8; area];
+    rng.fill(&mut bytes);
+    let mut strength = 1 + rng.below(12) as u8;
+    let mut hist = String::new();
+    for i in 0..n {
+        let (w, data): (usize, Vec<u8>) = if i > 0 && rng.chance(1, 6) {
+            // an unrelated picture in between
+            let (w, h) = (1 + rng.below(30) as usize, rng.below(30) as usize);
+            let mut d = vec![0u8; w * h];
+            rng.fill(&mut d);
+            (w, d)
+        } else {
+            if rng.chance(1, 2) {
+                rng.fill(&mut bytes);
+            }
+            (*rng.pick(&widths), bytes.clone())
+        };
+        if rng.chance(1, 3) {
+            strength = 1 + rng.below(12) as u8;
+        }
+        let off = rng.below(4) as usize;
+        let mut buf = vec![0xa5u8; off + data.len() + 3];
+        buf[off..off + data.len()].copy_from_slice(&data);
+        hist.push_str(&format!("{}x{}@{}s{} ", w, data.len() / w, off, strength));
+        rep.evaluations += 1;
+        if !compare_at(&buf[off..off + data.len()], w, strength, rep, &format!("call {} of the sequence [{}]", i, hist.trim_end()), prop, Some(&over)) {
+            return;
+        }
+        rep.count("sequence_calls_ok");
+        if off != 0 {
+            rep.count("calls_on_unaligned_subslices");
+        }
+    }
+    rep.count("call_sequences");
+    rep.distinct.insert(fnv64(hist.as_bytes()));
+}
+
+fn call_sequences(ctx: &Ctx, prop: &'static str) -> Report {
+    let n = if ctx.miri() { 16 } else { ctx.n(3000, 60000) as usize };
+    let reps = par_shards(64, ctx.threads, |sh| {
+        let mut rep = Report::new();
+        let mut k = sh;
+        while k < n {
+            crate::mon::guarded(&mut rep, || J::obj().set("property", prop).set("kind", "sequence").set("k", k), |rep| sequence_case(ctx, prop, k, rep));
+            k += 64;
+        }
+        rep
+    });
+    Report::merge_all(reps)
 }
 
 /// Sample-count ladder: more than 2^24 samples of full-contrast or saturated content, where sums
@@ -398,6 +494,12 @@ fn boundary_images(ctx: &Ctx, prop: &'static str) -> Report {
 }
 
 pub fn replay_image(j: &J, rep: &mut Report, prop: &str) {
+    if j.get("kind").and_then(|k| k.as_str()) == Some("sequence") {
+        let ctx = Ctx { tier: if j.get("tier").and_then(|t| t.as_str()) == Some("thorough") { Tier::Thorough } else { Tier::Quick }, seed: j.get("seed").and_then(|v| v.as_i64()).unwrap_or(1) as u64, threads: 1, stage: j.get("stage").and_then(|v| v.as_str()).unwrap_or("chk").to_string(), scale_pct: 100 };
+        let prop: &'static str = if prop == "C16" { "C16" } else { "C09" };
+        sequence_case(&ctx, prop, j.get("k").and_then(|v| v.as_i64()).unwrap_or(0) as usize, rep);
+        return;
+    }
     let w = j.get("w").and_then(|v| v.as_i64()).unwrap_or(1) as usize;
     let s = j.get("strength").and_then(|v| v.as_i64()).unwrap_or(1) as u8;
     let data = crate::util::unhex(j.get("data").and_then(|v| v.as_str()).unwrap_or(""));
@@ -467,6 +569,32 @@ pub fn run_c16(ctx: &Ctx) -> (Report, String) {
                         }
                     })
                     .collect();
+                // thin lines: a flat background with one to three full-width rows and up to two full-height
+                // columns (one or two samples thick) of other values, at any phase of the 8x8 grid
+                if w * h > 0 {
+                    let bg = *rng.pick(&[0u8, 16, 128, 200, 255]);
+                    let mut t = vec![bg; w * h];
+                    for _ in 0..1 + rng.below(3) {
+                        let (y0, th, v) = (rng.below(h as u64) as usize, 1 + rng.below(2) as usize, rng.byte());
+                        for y in y0..(y0 + th).min(h) {
+                            t[y * w..(y + 1) * w].iter_mut().for_each(|p| *p = v);
+                        }
+                    }
+                    for _ in 0..rng.below(3) {
+                        let (x0, th, v) = (rng.below(w as u64) as usize, 1 + rng.below(2) as usize, rng.byte());
+                        for x in x0..(x0 + th).min(w) {
+                            for y in 0..h {
+                                t[y * w + x] = v;
+                            }
+                        }
+                    }
+                    rep.evaluations += 1;
+                    if compare(&t, w, s, &mut rep, &format!("{}x{} strength {} thin lines", w, h, s), "C16") {
+                        rep.count("thin_line_calls_ok");
+                    } else {
+                        break;
+                    }
+                }
                 rep.evaluations += 1;
                 if compare(&e, w, s, &mut rep, &format!("{}x{} strength {} full-contrast content {} polarity {}", w, h, s, kind, pol), "C16") {
                     rep.count("full_contrast_calls_ok");
@@ -482,10 +610,13 @@ pub fn run_c16(ctx: &Ctx) -> (Report, String) {
     if !ctx.miri() {
         rep.merge(boundary_images(ctx, "C16"));
     }
+    rep.merge(call_sequences(ctx, "C16"));
     if ctx.is_main() {
+        rep.require("call_sequences", 2000 * ctx.scale_pct.min(100) / 100);
         rep.merge(huge_images(ctx, "C16"));
         rep.require("huge_images", if ctx.tier == Tier::Thorough { 14 } else { 8 });
         rep.require("full_contrast_calls_ok", (maxd * maxd * 12) as u64);
+        rep.require("thin_line_calls_ok", (maxd * maxd * 12) as u64);
         for kind in 0..3 {
             rep.require(&format!("full_contrast:strength=12:kind={}", kind), 100);
         }
